@@ -5,7 +5,7 @@ LIB = 'assumed NumPy/SciPy contracts (DESIGN 3.2): '
 ASSUMED = {
     'C01': [LIB + 'np.linalg.qr(reduced): Q R = B, Q^H Q = I, k = min(p, r), real diagonal of R',
             'K_qr factorization clauses of bond_ops.qr (Q R = A, Q^H Q = I, supports of Q and R) are used as callee contract of the local steps; '
-            'engine Z proves from the body of qr its size/bounds/dummy-branch clauses and the block sparsity of Q and R under the intermediate charges (support predicate, vt/zqr.py); Q R = A and Q^H Q = I are bounded (C11)',
+            'engine Z proves these clauses from the body of qr for all shapes and charge vectors (vt/zqr.py: sizes, bounds, supports; vt/zqrv.py: Q R = A and Q^H Q = I at entry level relative to the LAPACK contract of np.linalg.qr)',
             'modelling of Python lists as mathematical sequences (array stores = list updates) in the predicate-level sweeps',
             'T[0,0,0].real is the whole value of the trailing 1x1 factor (real diagonal of R)'],
     'C02': ['K_qr / K_svd callee contracts (see C01, C12)', 'closure under operation histories is the induction over the per-operation contracts; '
@@ -18,7 +18,8 @@ ASSUMED = {
     'C08': ['K_lanczos / eigh_tridiagonal / expm contracts are not used deductively; callable arguments of expm_krylov are assumed not to modify their arguments (engine F)'],
     'C09': [], 'C10': ['callable arguments of eigh_krylov are assumed not to modify their arguments (engine F)'],
     'C11': [LIB + 'np.intersect1d (strictly increasing common values, complete), np.argsort (stable sorting permutation with inverse), np.where(mask)[0] '
-            '(increasing, complete), np.arange, np.linalg.qr shapes', 'is_qsparse(A, [q0, -q1]) (leading assert) is the precondition: A[i,j] != 0 => q0[i] == q1[j]'],
+            '(increasing, complete), np.arange, np.linalg.qr(B) = (Qs, Rs): shapes (p, k), (k, r) with k = min(p, r), Qs Rs = B, Qs^H Qs = I', 'is_qsparse(A, [q0, -q1]) (leading assert) is the precondition: A[i,j] != 0 => q0[i] == q1[j]',
+            'entry values: the range-sum rules (empty, split, vanish, congruence, single term, permutation) are proved in Lean (vt/lemmas/Sums.lean); that the generator applies them as stated there (uninterpreted Dot/Gram symbols in z3 vs `VT.dot` in Lean) is by reading, not machine-checked; ring elements are modelled as reals with an uninterpreted conjugation'],
     'C12': [LIB + 'np.linalg.norm, elementwise division/square, np.argsort, gather/scatter through a permutation, np.cumsum, np.where; '
             'the sum of the normalised squares is 1 and is invariant under permutation (reindexing of a finite sum)',
             'K_svd (u diag(s) v + E = A, u^H E = 0, E v^H = 0, isometries, real s) at the call sites of split_matrix_svd',
@@ -45,7 +46,7 @@ BOUNDED_ONLY = {
     'C08': ['norm and energy conservation', 'returned value equals the input norm', 'single-site TDVP never increases a bond dimension'],
     'C09': ['exactness on a complete manifold', 'time reversibility'],
     'C10': ['variational bounds', 'monotonicity', 'last energy equals the energy of the returned state', 'exact ground state on a complete manifold'],
-    'C11': ['Q R = A', 'Q^H Q = I'],
+    'C11': ['floating-point residuals of Q R = A and Q^H Q = I (the deductive proof is in exact arithmetic)'],
     'C12': ['isometry of u and v', 'error identity ||A - u s v||^2 = sum of discarded s^2', 'tol = 0 reproduces A'],
     'C13': ['scale in [sqrt(1 - L tol), 1]', 'error identity for compress', 'first truncated bond keeps the prescribed Schmidt values', 'from_vector error bound'],
     'C14': ['orthonormality of the Krylov vectors', 'projected map equals the tridiagonal / Hessenberg matrix', 'positivity of beta'],
